@@ -173,7 +173,20 @@ def ev(self, e: ast.AST, st: State) -> Term:
             if isinstance(v, ast.Constant):
                 parts.append(C(v.value))
             else:
-                parts.append(mk("fmtval", self.ev(v.value, st), C(_spec(v))))
+                val_ = self.ev(v.value, st)
+                spec_ = _spec(v)
+                if is_const(val_) and spec_ != "?" and v.conversion in (-1, 115, 114) and not isinstance(cval(val_), Term):
+                    # a constant value formats to a constant piece of text
+                    try:
+                        x_ = cval(val_)
+                        x_ = str(x_) if v.conversion == 115 else repr(x_) if v.conversion == 114 else x_
+                        parts.append(C(format(x_, spec_)))
+                        continue
+                    except (ValueError, TypeError):
+                        pass
+                parts.append(mk("fmtval", val_, C(spec_)))
+        if all(is_const(p_) for p_ in parts):
+            return C("".join(str(cval(p_)) for p_ in parts))
         return mk("fstr", tuple(parts))
     if t is ast.Starred:
         return self.ev(e.value, st)
@@ -183,7 +196,13 @@ def ev(self, e: ast.AST, st: State) -> Term:
         self.emit("yield", e, st, value=v)
         if fr.yields is not None:
             o = st.heap[fr.yields]
-            o.items.append((v, st.ctx, "yield"))
+            if o.exact and not any(f[0] == "loop" for f in st.ctx[len(o.created_ctx):]):
+                o.items.append(v)
+            else:
+                if o.exact:
+                    o.items = [(x, o.created_ctx, "yield") for x in o.items]
+                    o.exact = False
+                o.items.append((v, st.ctx, "yield"))
             o.version += 1
         return NONE
     if t is ast.NamedExpr:
@@ -283,6 +302,16 @@ def lookup_global(self, m: ModuleInfo, name: str, st: State, node=None) -> Term:
         rm, expr = r[1], r[2]
         if (rm.name, name) in self.global_overrides:
             return self.global_overrides[(rm.name, name)]
+        if isinstance(expr, ast.Call) and len(expr.args) == 1 and not expr.keywords and isinstance(expr.args[0], ast.Constant) and isinstance(expr.func, (ast.Name, ast.Attribute)):
+            # NAME = struct.Struct("<constant format>") at module level
+            fd = _dotted(expr.func)
+            rb_ = self.prog.resolve_symbol(rm, fd.split(".")[0]) if fd else None
+            full = (rb_[1] + fd[len(fd.split(".")[0]):]) if isinstance(rb_, tuple) and rb_[0] == "external" else None
+            if full == "struct.Struct":
+                from .models import struct_layout
+
+                if struct_layout(expr.args[0].value) is not None:
+                    return mk("structobj", expr.args[0].value)
         tgt = self.prog.resolve_expr_static(rm, expr) if isinstance(expr, (ast.Name, ast.Attribute)) else None
         if isinstance(tgt, FuncInfo):
             return self.fterm(tgt)
@@ -341,6 +370,13 @@ def _class_of(self, qual) -> Optional[ClassInfo]:
 
 def get_attr(self, base: Term, name: str, st: State, node=None) -> Term:
     op = base.op
+    if op == "structobj":
+        if name == "size":
+            import struct as _struct
+
+            return C(_struct.calcsize(base.args[0]))
+        if name == "format":
+            return C(base.args[0])
     if op == "ref":
         o = self.obj(st, base)
         if o is None:
@@ -572,7 +608,33 @@ def ev_subscript(self, e: ast.Subscript, st: State) -> Term:
     return self.do_subscript(base, idx, None, st, e)
 
 
+def _module_dict_item(self, modname: str, name: str, key):
+    """the value a module-level `name = {<constant keys>: <names of classes / functions>}` literal gives for `key` (None when it is not of that form)"""
+    m = self.prog.modules.get(modname)
+    if m is None:
+        return None
+    defs = [n for n in m.tree.body if isinstance(n, (ast.Assign, ast.AnnAssign)) and any(isinstance(t, ast.Name) and t.id == name for t in (n.targets if isinstance(n, ast.Assign) else [n.target]))]
+    if len(defs) != 1 or not isinstance(defs[0].value, ast.Dict):
+        return None
+    for k, v in zip(defs[0].value.keys, defs[0].value.values):
+        if isinstance(k, ast.Constant) and k.value == key and isinstance(v, (ast.Name, ast.Attribute)):
+            # the name as bound at that point of the module (a later def of the same name does not count)
+            tgt = self.prog.resolve_expr_static(m, v)
+            if isinstance(tgt, FuncInfo):
+                return self.fterm(tgt)
+            if isinstance(tgt, ClassInfo):
+                return mk("class", tgt.qualname)
+    return None
+
+
 def do_subscript(self, base: Term, idx: Optional[Term], sl, st: State, node) -> Term:
+    if sl is None and base.op == "global" and is_const(idx):
+        # a module-level dictionary used as a registry: D[<key>] is what was registered for <key>, else the entry of the dictionary literal
+        hit = self.item_overrides.get((base.args[0], base.args[1], cval(idx))) if self.registered else None
+        if hit is None:
+            hit = _module_dict_item(self, base.args[0], base.args[1], cval(idx))
+        if hit is not None:
+            return hit
     o = self.obj(st, base)
     if sl is not None:
         lo, hi, stp = sl
@@ -1142,7 +1204,7 @@ def iter_items(self, v: Term, st: State) -> Optional[List[Term]]:
         return list(v.args[0])
     if v.op == "ref":
         o = self.obj(st, v)
-        if o is not None and o.kind in ("list", "set", "bytearray") and o.exact and not o.is_gen:
+        if o is not None and o.kind in ("list", "set", "bytearray") and o.exact and (not o.is_gen or self.sym_bytes):
             return list(o.items)
         if o is not None and o.kind == "dict" and o.exact:
             return [k.term if isinstance(k, TK) else self.lift(k) for k in o.kv]
